@@ -431,6 +431,19 @@ func reqSkip(sp engine.Space) func(engine.Vec) bool {
 				return true // 10 MB bodies only as a single deviation (cost)
 			}
 		}
+		for _, d := range c.pdev {
+			if d == "1mb" {
+				dev := 0
+				for i, x := range v {
+					if x != 0 && i >= 2 {
+						dev++
+					}
+				}
+				if dev > 1 {
+					return true // 1 MB values only as a single deviation (cost)
+				}
+			}
+		}
 		if c.mangle != "none" && c.ctype != "form" && c.ctype != "none" && c.ctype != "form-charset" {
 			return true // mangling is defined on the urlencoded form
 		}
